@@ -511,11 +511,15 @@ def t_order_fresh(facts, res, tier):
             order = {f["name"]: expr_text(f["e"]) for f in lit["fields"]}.get("order")
             key = "T-ORDER-FRESH:%s:%s.insert(%s)" % (fn["name"], mapt, keyt)
             res.inst(key, True, {"function": fn["name"], "map": mapt, "key": keyt, "order": order})
+            kvar = re.sub(r"\.(clone|to_string|into)\(\)$", "", keyt)
+            # order-preserving replacement: keep the existing entry's order, else the current size
+            preserving = re.match(r"^%s\.get\(%s\)\.map\(\|\.\.\|(\w+)\.order\)\.unwrap_or\(%s\.len\(\)\)$" % (re.escape(mapt), re.escape(kvar), re.escape(mapt)), order or "")
+            if preserving:
+                continue
             if order != mapt + ".len()":
                 res.fail(key, facts.where(fn, lit), "order is `%s`, not the current size of `%s`" % (order, mapt))
                 continue
             # freshness: an absence test of the same key in the same map that rejects/renames
-            kvar = re.sub(r"\.(clone|to_string|into)\(\)$", "", keyt)
             fresh = False
             found = []
             guards_walk(fn["body"], [], found, lambda n: n is ins)
